@@ -172,14 +172,36 @@ def resolve(variant, a):
     return a
 
 
-def run_case(variant, case, name=None, nargs=None):
-    """-> ('ok', return value, [arrays after the call]) | ('raise', 'Type: message')"""
+class Hang(Exception):
+    pass
+
+
+def _alarm(*a):
+    raise Hang()
+
+
+def run_case(variant, case, name=None, nargs=None, budget=20.0):
+    """-> ('ok', return value, [arrays after the call]) | ('raise', 'Type: message') | ('hang', seconds)
+    (watchdog through SIGALRM when called from the main thread: the implicit step iterates until convergence)"""
+    import signal
+    import threading
     args = [resolve(variant, a) for a in case['args']]
     if nargs is not None:
         args = args[:nargs]
+    guard = threading.current_thread() is threading.main_thread()
     try:
         fn = getattr(variant[case['module']], name or case['kernel'])
-        ret = fn(*args)
+        if guard:
+            old = signal.signal(signal.SIGALRM, _alarm)
+            signal.setitimer(signal.ITIMER_REAL, budget)
+        try:
+            ret = fn(*args)
+        finally:
+            if guard:
+                signal.setitimer(signal.ITIMER_REAL, 0)
+                signal.signal(signal.SIGALRM, old)
+    except Hang:
+        return ('hang', budget)
     except Exception as e:  # noqa: BLE001
         return ('raise', '%s: %s' % (type(e).__name__, str(e)[:200]))
     if isinstance(ret, tuple):
@@ -207,6 +229,8 @@ def compare(case, ref, oth):
     """compare two run_case results -> dict(bit=bool, ok=bool, worst=float, where=str)"""
     if ref[0] != oth[0]:
         return {'bit': False, 'ok': False, 'worst': float('inf'), 'where': 'one raises: ref=%s other=%s' % (ref[:2], oth[:2])}
+    if ref[0] == 'hang':
+        return {'bit': True, 'ok': True, 'worst': 0.0, 'where': 'both exceed the watchdog'}
     if ref[0] == 'raise':
         same = ref[1].split(':')[0] == oth[1].split(':')[0]
         return {'bit': same, 'ok': same, 'worst': 0.0 if same else float('inf'), 'where': 'exception types %s / %s' % (ref[1], oth[1])}
@@ -349,6 +373,15 @@ def coeffs(rng, *shape):
     amp = rng.choice([1.0, 1.0, 1e-3, 50.0])
     a = np.array([rng.uniform(-1, 1) for _ in range(int(np.prod(shape)))]).reshape(shape) * amp
     return a
+
+
+def wrap(c, sp):
+    """make the coefficients along axis 0 those of a periodic spline (last `deg` = first `deg`), as pygyro's interpolators do;
+    without it the spline jumps at the seam and the implicit step's fixed-point iteration can oscillate across it for ever"""
+    d = sp['deg']
+    n = sp['ncoef'] - d
+    c[n:n + d] = c[:d]
+    return c
 
 
 def gain(sp, der):
@@ -506,7 +539,7 @@ def gen_lagrange(rng, n):
     for it in range(n):
         cu = it % 2 == 0
         sp = cu_space(rng, 0.0, TWO_PI, rng.randint(3, 9)) if cu else nu_space(rng, periodic=True, lo=0.0, hi=TWO_PI)
-        c = coeffs(rng, sp['ncoef'])
+        c = wrap(coeffs(rng, sp['ncoef']), sp)
         nz, nq, ns = rng.randint(2, 6), rng.randint(1, 5), rng.randint(1, 6)
         shifts = np.array([rng.randint(-3, 3) for _ in range(ns)], dtype=np.int64)
         thetaShifts = np.array([rng.uniform(-7, 7) for _ in range(ns)])
@@ -552,9 +585,16 @@ def gen_pol(rng, n):
         qPts = np.array(sorted(rng.uniform(0, TWO_PI) for _ in range(nq)))
         if rng.random() < 0.5:
             qPts[0] = 0.0
+        if impl and (it // 8) % 2 == 1:
+            # seam family: angular nodes eps_k = 2e-4 * 1.9^k just above 0.  At a radial boundary node whose first-stage foot
+            # leaves the domain, k1_q = eps - D and k2_q = eps - D/2; some eps_k lies in (D/2, D), so the two feet straddle the
+            # seam and the branch `diff > pi` of the convergence norm is taken
+            qPts = np.array([2e-4 * 1.9 ** k for k in range(10)] + [rng.uniform(1, 6)])
+            nq = len(qPts)
         cPhi = coeffs(rng, sq['ncoef'], sr['ncoef'])
         cPhi *= 1.0 / max(np.abs(cPhi).max(), 1e-300)                 # amplitude 1
-        cPol = coeffs(rng, sq['ncoef'], sr['ncoef'])
+        cPhi = wrap(cPhi, sq)
+        cPol = wrap(coeffs(rng, sq['ncoef'], sr['ncoef']), sq)
         d2 = (2 * max(sq['deg'], sr['deg']) / min(sq['hmin'], sr['hmin'])) ** 2
         B0 = rng.uniform(0.5, 2.0)
         # contraction factor of the fixed-point map ~ 0.5*dt/B0*d2/rmin ; explicit step may be bolder (more feet leave the domain)
